@@ -471,9 +471,15 @@ class DecimalConverter(Converter):
             ConverterError: on InvalidOperation errors.
         """
         try:
-            return Decimal(value)
+            result = Decimal(value)
         except InvalidOperation:
             raise ConverterError
+
+        if result.is_snan():
+            # Not a decimal lexical form, any later comparison raises InvalidOperation
+            raise ConverterError
+
+        return result
 
     def serialize(self, value: Decimal, **kwargs: Any) -> str:
         """Convert a decimal value sto string.
